@@ -1,0 +1,352 @@
+//! Read-only observation hooks for external verification harnesses.
+//!
+//! Everything in this module is compiled only with the `verif-hooks` cargo
+//! feature, which is off by default. Nothing here changes interpreter
+//! behaviour: the functions project private state into plain data, or call
+//! private pure functions (tokenizer, DATA parser, random number generator)
+//! on caller-supplied inputs.
+
+use std::ops::Range;
+
+use crate::{
+    data::{parse_data_until_colon, DataElement},
+    interpreter::{Interpreter, InterpreterState},
+    interpreter_error::{InterpreterError, TracedInterpreterError},
+    line_number_parser::parse_line_number,
+    program::{NumberedProgramLocation, ProgramLine, ProgramLocation},
+    random::Rng,
+    string_manager::StringManager,
+    syntax_error::{SyntaxError, TokenizationError},
+    tokenizer::{Token, Tokenizer},
+    value::Value,
+};
+
+#[derive(Debug, Clone, PartialEq)]
+pub enum Item {
+    Str(String),
+    Num(f64),
+}
+
+/// A token flattened into plain data.
+#[derive(Debug, Clone, PartialEq)]
+pub struct Tok {
+    /// Lower-case name of the `Token` variant.
+    pub kind: &'static str,
+    /// Payload of `Remark`, `Symbol` and `StringLiteral`.
+    pub text: Option<String>,
+    /// Payload of `NumericLiteral`.
+    pub num: Option<f64>,
+    /// Payload of `Data`.
+    pub items: Vec<Item>,
+    /// Canonical spelling (`Display`).
+    pub display: String,
+}
+
+#[derive(Debug, Clone, PartialEq)]
+pub enum Val {
+    Str(String),
+    Num(f64),
+}
+
+#[derive(Debug, Clone, PartialEq)]
+pub struct Loc {
+    /// `None` is the immediate line.
+    pub line: Option<u64>,
+    pub token_index: usize,
+}
+
+#[derive(Debug, Clone)]
+pub struct Frame {
+    pub return_location: Loc,
+    pub bindings: Vec<(String, Val)>,
+}
+
+#[derive(Debug, Clone)]
+pub struct LoopSnap {
+    pub symbol: String,
+    pub location: Loc,
+    pub to_value: f64,
+    pub step_value: f64,
+}
+
+#[derive(Debug, Clone)]
+pub struct FunctionSnap {
+    pub name: String,
+    pub arguments: Vec<String>,
+    pub location: Loc,
+}
+
+#[derive(Debug, Clone)]
+pub struct ArraySnap {
+    pub name: String,
+    pub is_string: bool,
+    /// Size along each axis (max index + 1).
+    pub dimensions: Vec<usize>,
+    /// Number of cells actually allocated.
+    pub cell_count: usize,
+    /// Cells that differ from the default value, by linear index.
+    pub non_default: Vec<(usize, Val)>,
+}
+
+#[derive(Debug, Clone)]
+pub struct DataCursor {
+    pub chunk_index: usize,
+    pub chunk_item_index: usize,
+    pub chunk_count: usize,
+    pub current_location: Option<Loc>,
+}
+
+#[derive(Debug, Clone)]
+pub struct Snapshot {
+    pub state: InterpreterState,
+    pub pending_input: Option<String>,
+    pub pending_output_len: usize,
+    pub location: Loc,
+    pub breakpoint: Option<Loc>,
+    pub stack: Vec<Frame>,
+    pub loops: Vec<LoopSnap>,
+    pub data_cursor: Option<DataCursor>,
+    pub functions: Vec<FunctionSnap>,
+    pub variables: Vec<(String, Val)>,
+    pub arrays: Vec<ArraySnap>,
+    pub seed: u64,
+    pub enable_warnings: bool,
+    pub enable_tracing: bool,
+    /// Keys of the line-number -> tokens map, sorted.
+    pub line_map_keys: Vec<u64>,
+    /// Keys of the sorted line-number set, in iteration order.
+    pub line_set_keys: Vec<u64>,
+    pub immediate_line: Vec<Tok>,
+    /// Number of token-cursor reads since the interpreter was created.
+    pub token_reads: u64,
+}
+
+#[derive(Debug, Clone, PartialEq)]
+pub struct ErrInfo {
+    /// Stable machine name of the error kind, e.g. `type_mismatch`,
+    /// `syntax_unexpected_token`, `syntax_tokenization_illegal_character`.
+    pub kind: String,
+    /// For `ExpectedToken`, the canonical spelling of the expected token.
+    pub expected: Option<String>,
+    /// For tokenization errors, the raw position payload of the error
+    /// (start, end) where end is `None` for the variants that carry only a
+    /// start index.
+    pub tokenization_pos: Option<(usize, Option<usize>)>,
+    pub location: Option<Loc>,
+}
+
+pub fn tok(token: &Token) -> Tok {
+    let mut t = Tok {
+        kind: "",
+        text: None,
+        num: None,
+        items: vec![],
+        display: token.to_string(),
+    };
+    t.kind = match token {
+        Token::Dim => "dim",
+        Token::Let => "let",
+        Token::Print => "print",
+        Token::Input => "input",
+        Token::Goto => "goto",
+        Token::Gosub => "gosub",
+        Token::Return => "return",
+        Token::Colon => "colon",
+        Token::Semicolon => "semicolon",
+        Token::Comma => "comma",
+        Token::QuestionMark => "questionmark",
+        Token::LeftParen => "leftparen",
+        Token::RightParen => "rightparen",
+        Token::Plus => "plus",
+        Token::Minus => "minus",
+        Token::Multiply => "multiply",
+        Token::Divide => "divide",
+        Token::Caret => "caret",
+        Token::Equals => "equals",
+        Token::NotEquals => "notequals",
+        Token::LessThan => "lessthan",
+        Token::LessThanOrEqualTo => "lessthanorequalto",
+        Token::GreaterThan => "greaterthan",
+        Token::GreaterThanOrEqualTo => "greaterthanorequalto",
+        Token::And => "and",
+        Token::Or => "or",
+        Token::Not => "not",
+        Token::If => "if",
+        Token::Then => "then",
+        Token::Else => "else",
+        Token::End => "end",
+        Token::Stop => "stop",
+        Token::For => "for",
+        Token::To => "to",
+        Token::Step => "step",
+        Token::Next => "next",
+        Token::Read => "read",
+        Token::Restore => "restore",
+        Token::Def => "def",
+        Token::Remark(s) => {
+            t.text = Some(s.to_string());
+            "remark"
+        }
+        Token::Symbol(s) => {
+            t.text = Some(s.to_string());
+            "symbol"
+        }
+        Token::StringLiteral(s) => {
+            t.text = Some(s.to_string());
+            "stringliteral"
+        }
+        Token::NumericLiteral(n) => {
+            t.num = Some(*n);
+            "numericliteral"
+        }
+        Token::Data(elements) => {
+            t.items = elements.iter().map(item).collect();
+            "data"
+        }
+    };
+    t
+}
+
+fn item(element: &DataElement) -> Item {
+    match element {
+        DataElement::String(s) => Item::Str(s.to_string()),
+        DataElement::Number(n) => Item::Num(*n),
+    }
+}
+
+pub(crate) fn val(value: &Value) -> Val {
+    match value {
+        Value::String(s) => Val::Str(s.to_string()),
+        Value::Number(n) => Val::Num(*n),
+    }
+}
+
+pub(crate) fn loc(location: &ProgramLocation) -> Loc {
+    Loc {
+        line: match location.line {
+            ProgramLine::Immediate => None,
+            ProgramLine::Line(n) => Some(n),
+        },
+        token_index: location.token_index,
+    }
+}
+
+pub(crate) fn nloc(location: &NumberedProgramLocation) -> Loc {
+    Loc {
+        line: Some(location.line),
+        token_index: location.token_index,
+    }
+}
+
+/// Location carried by a diagnostic warning.
+pub fn numbered_location(location: &NumberedProgramLocation) -> Loc {
+    nloc(location)
+}
+
+fn tokenization_info(t: &TokenizationError) -> (&'static str, (usize, Option<usize>)) {
+    match t {
+        TokenizationError::IllegalCharacter(i) => ("illegal_character", (*i, None)),
+        TokenizationError::UnterminatedStringLiteral(i) => ("unterminated_string", (*i, None)),
+        TokenizationError::InvalidNumber(r) => ("invalid_number", (r.start, Some(r.end))),
+    }
+}
+
+pub fn error_info(err: &TracedInterpreterError) -> ErrInfo {
+    let mut info = ErrInfo {
+        kind: String::new(),
+        expected: None,
+        tokenization_pos: None,
+        location: err.location.as_ref().map(loc),
+    };
+    info.kind = match &err.error {
+        InterpreterError::Syntax(SyntaxError::Tokenization(t)) => {
+            let (name, pos) = tokenization_info(t);
+            info.tokenization_pos = Some(pos);
+            format!("syntax_tokenization_{}", name)
+        }
+        InterpreterError::Syntax(SyntaxError::UnexpectedToken) => {
+            "syntax_unexpected_token".to_string()
+        }
+        InterpreterError::Syntax(SyntaxError::ExpectedToken(token)) => {
+            info.expected = Some(token.to_string());
+            "syntax_expected_token".to_string()
+        }
+        InterpreterError::Syntax(SyntaxError::UnexpectedEndOfInput) => {
+            "syntax_unexpected_end_of_input".to_string()
+        }
+        InterpreterError::TypeMismatch => "type_mismatch".to_string(),
+        InterpreterError::DataTypeMismatch => "data_type_mismatch".to_string(),
+        InterpreterError::UndefinedStatement => "undefined_statement".to_string(),
+        InterpreterError::OutOfMemory(crate::OutOfMemoryError::StackOverflow) => {
+            "out_of_memory_stack_overflow".to_string()
+        }
+        InterpreterError::OutOfMemory(crate::OutOfMemoryError::ArrayTooLarge) => {
+            "out_of_memory_array_too_large".to_string()
+        }
+        InterpreterError::OutOfData => "out_of_data".to_string(),
+        InterpreterError::ReturnWithoutGosub => "return_without_gosub".to_string(),
+        InterpreterError::NextWithoutFor => "next_without_for".to_string(),
+        InterpreterError::BadSubscript => "bad_subscript".to_string(),
+        InterpreterError::IllegalQuantity => "illegal_quantity".to_string(),
+        InterpreterError::Unimplemented => "unimplemented".to_string(),
+        InterpreterError::DivisionByZero => "division_by_zero".to_string(),
+        InterpreterError::RedimensionedArray => "redimensioned_array".to_string(),
+        InterpreterError::CannotContinue => "cannot_continue".to_string(),
+        InterpreterError::IllegalDirect => "illegal_direct".to_string(),
+    };
+    info
+}
+
+/// Tokenize `line`, skipping its first `skip_bytes` bytes, exactly as the
+/// interpreter and the analyzer do. On failure returns the tokens produced
+/// before the error together with the error.
+pub fn tokenize(line: &str, skip_bytes: usize) -> (Vec<(Tok, Range<usize>)>, Option<ErrInfo>) {
+    let mut manager = StringManager::default();
+    let mut tokens = vec![];
+    let tokenizer = Tokenizer::new(line, &mut manager).skip_bytes(skip_bytes);
+    for result in tokenizer {
+        match result {
+            Ok((token, range)) => tokens.push((tok(&token), range)),
+            Err(err) => {
+                let traced: TracedInterpreterError = err.into();
+                return (tokens, Some(error_info(&traced)));
+            }
+        }
+    }
+    (tokens, None)
+}
+
+/// The byte range a tokenization error covers in a line of the given length.
+pub fn tokenization_error_range(
+    err: &TracedInterpreterError,
+    line_length: usize,
+) -> Option<Range<usize>> {
+    match &err.error {
+        InterpreterError::Syntax(SyntaxError::Tokenization(t)) => {
+            Some(t.string_range(line_length))
+        }
+        _ => None,
+    }
+}
+
+pub fn line_number(line: &str) -> Option<(u64, usize)> {
+    parse_line_number(line)
+}
+
+/// The DATA / INPUT-reply item parser: items and the number of bytes consumed.
+pub fn parse_data(value: &str) -> (Vec<Item>, usize) {
+    let (elements, bytes) = parse_data_until_colon(value, None);
+    (elements.iter().map(item).collect(), bytes)
+}
+
+/// One `RND(arg)` call on a generator in state `seed`: the result (or `None`
+/// for an error) and the state afterwards.
+pub fn rng_rnd(seed: u64, arg: f64) -> (Option<f64>, u64) {
+    let mut rng = Rng::new(seed);
+    let result = rng.rnd(arg).ok();
+    (result, rng.verif_seed())
+}
+
+pub fn snapshot(interpreter: &Interpreter) -> Snapshot {
+    interpreter.verif_snapshot()
+}
